@@ -743,16 +743,19 @@ def run_C01(rng, tier):
 
 # ---------------------------------------------------------------------------------- long / huge-window f64 runs against the exact scalar
 O1_VIEWS = {"Sma", "Cumulative", "Roc", "Welford", "WelfordMean", "WelfordVar", "Vst", "Vsct", "WRolling", "WRollingMean", "Gte", "Lte"}   # O(1) work per update
-def bounded_walk(rng, L, grid=100):
+def bounded_walk(rng, L, grid=100, minstep=None):
     c = F(500)
     xs = []
     for _ in range(L):
-        st = F(rng.below(99 * grid) + 1, grid) * rng.choice([1, -1])      # non-zero steps, reflected at the borders of [1, 1000]
+        if minstep is not None:
+            st = F(rng.below((99 - minstep) * grid + 1) + minstep * grid, grid) * rng.choice([1, -1])     # steps in [minstep, 99] on the 1/grid lattice
+        else:
+            st = F(rng.below(99 * grid) + 1, grid) * rng.choice([1, -1])      # non-zero steps, reflected at the borders of [1, 1000]
         c = c + st if F(1) <= c + st <= F(1000) else c - st
         xs.append(c)
     return xs
 
-def dense_vs_exact(rng, tier, names, prefix, L=None, huge=True, spec=None, grid=100):
+def dense_vs_exact(rng, tier, names, prefix, L=None, huge=True, spec=None, grid=100, minstep=None):
     """f64 (release) against the same code at the exact scalar, compared at EVERY step: a stream long enough to pass the usual counter
     thresholds (2^12 in the quick tier, 2^16 and 2^17 in the thorough tier for O(1) views), and window lengths beyond 2^8 (2^16 thorough).
     Effects tied to the number of updates or to a large window cannot hide between samples.  Returns (groups, violations)."""
@@ -766,7 +769,7 @@ def dense_vs_exact(rng, tier, names, prefix, L=None, huge=True, spec=None, grid=
             LL = min(LL, 5000)
         n = rng.choice([2, 3, 7, 20])
         d = (name, E) if unary else (name, n, E)
-        xs = bounded_walk(rng, LL, grid)
+        xs = bounded_walk(rng, LL, grid, minstep)
         meta = {"view": name, "regime": "dense-long", "model": False}
         groups.append(("long", Case(d, [("v", 0, x) for x in xs], dict(meta, mode="f64")), Case(d, [("v", 0, x) for x in xs], dict(meta, mode="ex")), None))
         if huge and not unary and name not in ("Ema", "Cyber", "EmaAlpha"):
@@ -777,7 +780,7 @@ def dense_vs_exact(rng, tier, names, prefix, L=None, huge=True, spec=None, grid=
                 steps = n + 40 if name in ("Net", "Cti") else (2 * n + 50)
                 if n > 60000:
                     steps = 2 * n + 50
-                xs = bounded_walk(rng, steps, grid)
+                xs = bounded_walk(rng, steps, grid, minstep)
                 meta = {"view": name, "regime": "huge-window", "model": False}
                 groups.append(("long", Case((name, n, E), [("v", 0, x) for x in xs], dict(meta, mode="f64")), Case((name, n, E), [("v", 0, x) for x in xs], dict(meta, mode="ex")), None))
     run_impl([g[1] for g in groups], mode="f64", profile="release")
@@ -1641,7 +1644,7 @@ def run_C16(rng, tier):
             xs = []
             # exact runs of the recursive views grow by a few bits per step: shorter streams there
             for _ in range(L if name not in ("Ema", "Cyber") else 1500):
-                st = F(rng.below(99) + 1) * rng.choice([1, -1])      # non-zero steps 1..99, reflected at the borders
+                st = F(rng.below(981) + 10, 10) * rng.choice([1, -1])      # steps 1.0 .. 99.0 in tenths (not binary64 numbers: sums round), reflected at the borders
                 c = c + st if F(1) <= c + st <= F(1000) else c - st
                 xs.append(c)
             meta = {"view": name, "regime": "long-bounded-range", "model": False}
@@ -1675,9 +1678,10 @@ def run_C16(rng, tier):
     run_impl([g[1] for g in groups], mode="f64", profile="release")
     run_impl([g[2] for g in groups], mode="ex", profile="release", prec=(96, 64))
     viols = O.c16(groups)
-    # C16 quantifies over streams whose non-zero magnitudes and step sizes span at most three decades: integer steps 1..99 inside [1, 1000]
-    # (the finer grid of the other properties' dense runs puts nearly flat windows in front of Vst / Vsct: see c02-welford-residue-*)
-    dg, dv = dense_vs_exact(rng, tier, C16_VIEWS + ["WRolling", "WRollingMean"], "c16", grid=1)
+    # C16 quantifies over streams whose non-zero magnitudes and step sizes span at most three decades: steps in [1, 99] inside [1, 1000], on the
+    # lattice of tenths so that the values are NOT binary64 numbers and every sum rounds (integer walks make all sums exact and hide drift)
+    # (the finer steps of the other properties' dense runs put nearly flat windows in front of Vst / Vsct: see c02-welford-residue-*)
+    dg, dv = dense_vs_exact(rng, tier, C16_VIEWS + ["WRolling", "WRollingMean"], "c16", grid=10, minstep=1)
     viols += dv
     groups += dg
     mc, mv = million_constant(rng, tier, C16_VIEWS + ["WRolling", "WRollingMean", "WelfordVar"], "c16")
@@ -1689,7 +1693,7 @@ def run_C16(rng, tier):
         xs = []
         c = F(500)
         for _ in range(3000):
-            st = F(rng.below(99) + 1) * rng.choice([1, -1])
+            st = F(rng.below(981) + 10, 10) * rng.choice([1, -1])
             c = c + st if F(1) <= c + st <= F(1000) else c - st
             xs.append(c)
         meta = {"view": name, "regime": "f32-long", "model": False}
